@@ -134,6 +134,9 @@ pub fn random_case(rng: &mut Rng, stage_nonzero: bool) -> VocCase {
                 // value class: a gain of exactly one (linear 1.0, log 0.0 / -0.0) every seventh case (seeded change C13g: a
         // "multiply by one" shortcut in the normalisation that also skips the assignment of element 0)
         let mut v = vec![if rng.chance(0.15) { if log_gain { if rng.chance(0.5) { 0.0 } else { -0.0 } } else { 1.0 } }
+            // value class: a very small or very large gain (K = 1e-20 … 1e+6): the response scales with K whatever its size
+            // (seeded change C13k: a "denormal guard" with f64::EPSILON as an absolute limit in the MGLSA recursion)
+            else if rng.chance(0.12) { if log_gain { *rng.pick(&[-46.0, -36.0, -30.0, 14.0]) } else { *rng.pick(&[1e-20, 1e-16, 1e-13, 1e6]) } }
             else if log_gain { rng.uniform(-1.0, 1.0) } else { rng.uniform(0.3, 3.0) }];
                 v.extend(random_lsp(rng, nmcp - 1));
                 v
@@ -462,6 +465,9 @@ pub fn gen_c13(seed: u64, thorough: bool) {
         let beta = if i % 4 == 3 { rng.uniform(0.05, 0.4) } else { 0.0 };
         // value class: a gain of exactly one (linear 1.0, log 0.0 / -0.0) every seventh case
         let mut v = vec![if i % 7 == 3 { if log_gain { if rng.chance(0.5) { 0.0 } else { -0.0 } } else { 1.0 } }
+            // value class: a very small or very large gain (K = 1e-20 … 1e+6): the response scales with K whatever its size
+            // (seeded change C13k: a "denormal guard" with f64::EPSILON as an absolute limit in the MGLSA recursion)
+            else if i % 7 == 5 { if log_gain { *rng.pick(&[-46.0, -36.0, -30.0, 14.0]) } else { *rng.pick(&[1e-20, 1e-16, 1e-13, 1e6]) } }
             else if log_gain { rng.uniform(-1.0, 1.0) } else { rng.uniform(0.3, 3.0) }];
         v.extend(random_lsp(&mut rng, order));
         let k = *rng.pick(&[65usize, 129, 257]);
